@@ -1,0 +1,247 @@
+//go:build verif
+
+// Package verifhook holds the observation points used by the external
+// runtime-verification harness (build tag "verif"). Nothing here changes the
+// behaviour of git-lfs unless one of the VERIF_* environment variables is set
+// or a harness linked into the same process installs a sink.
+package verifhook
+
+import (
+	"crypto/sha256"
+	"encoding/hex"
+	"fmt"
+	"hash/fnv"
+	"io"
+	"os"
+	"path/filepath"
+	"regexp"
+	"runtime"
+	"strconv"
+	"strings"
+	"sync"
+	"sync/atomic"
+	"syscall"
+	"time"
+)
+
+// E is one observed event.
+type E struct {
+	Seq  int64
+	Kind string
+	Oid  string
+	N    int64
+	T    int64 // monotonic ns since process start
+}
+
+var (
+	initOnce sync.Once
+	t0       = time.Now()
+	seq      int64
+
+	sinkMu sync.Mutex
+	sink   func(E)
+	trace  *os.File
+
+	yieldSeed     uint64
+	yieldPermille uint64
+	yieldCount    uint64
+
+	scale atomic.Value // float64
+
+	crashPoint string
+	crashN     int64
+	crashHits  sync.Map // point -> *int64
+	crashLog   *os.File
+	crashOK    bool
+)
+
+func setup() {
+	if p := os.Getenv("VERIF_TRACE"); p != "" {
+		trace, _ = os.OpenFile(p, os.O_WRONLY|os.O_APPEND|os.O_CREATE, 0o644)
+	}
+	if y := os.Getenv("VERIF_YIELD"); y != "" {
+		parts := strings.SplitN(y, ":", 2)
+		if len(parts) == 2 {
+			s, _ := strconv.ParseUint(parts[0], 10, 64)
+			p, _ := strconv.ParseUint(parts[1], 10, 64)
+			atomic.StoreUint64(&yieldSeed, s)
+			atomic.StoreUint64(&yieldPermille, p)
+		}
+	}
+	if s := os.Getenv("VERIF_RETRY_SCALE"); s != "" {
+		if f, err := strconv.ParseFloat(s, 64); err == nil && f > 0 {
+			scale.Store(f)
+		}
+	}
+	crashOK = true
+	if m := os.Getenv("VERIF_CRASH_CMD"); m != "" {
+		crashOK = strings.Contains(strings.Join(os.Args[1:], " "), m)
+	}
+	if c := os.Getenv("VERIF_CRASH"); c != "" && crashOK {
+		i := strings.LastIndex(c, ":")
+		if i > 0 {
+			crashPoint = c[:i]
+			crashN, _ = strconv.ParseInt(c[i+1:], 10, 64)
+		}
+	}
+	if p := os.Getenv("VERIF_CRASH_LOG"); p != "" {
+		crashLog, _ = os.OpenFile(p, os.O_WRONLY|os.O_APPEND|os.O_CREATE, 0o644)
+	}
+}
+
+// SetSink installs an in-process event consumer (harness linked into the same binary).
+func SetSink(f func(E)) {
+	sinkMu.Lock()
+	sink = f
+	sinkMu.Unlock()
+}
+
+// SetYield configures schedule perturbation in-process (permille 0 disables).
+func SetYield(seed, permille uint64) {
+	initOnce.Do(setup)
+	atomic.StoreUint64(&yieldSeed, seed)
+	atomic.StoreUint64(&yieldPermille, permille)
+}
+
+// SetRetryScale configures the back-off scaler in-process (1 = unscaled).
+func SetRetryScale(f float64) {
+	initOnce.Do(setup)
+	scale.Store(f)
+}
+
+// Event records one event. It must be called outside the caller's own critical
+// sections where possible; the sink mutex is private to this package.
+func Event(kind, oid string, n int64) {
+	initOnce.Do(setup)
+	sinkMu.Lock()
+	s, tr := sink, trace
+	if s == nil && tr == nil {
+		sinkMu.Unlock()
+		return
+	}
+	e := E{Seq: atomic.AddInt64(&seq, 1), Kind: kind, Oid: oid, N: n, T: int64(time.Since(t0))}
+	if tr != nil {
+		fmt.Fprintf(tr, "{\"pid\":%d,\"seq\":%d,\"kind\":%q,\"oid\":%q,\"n\":%d,\"t\":%d}\n", os.Getpid(), e.Seq, e.Kind, e.Oid, e.N, e.T)
+	}
+	sinkMu.Unlock()
+	if s != nil {
+		s(e)
+	}
+}
+
+// Yield perturbs the schedule at an existing suspension point.
+func Yield(point string) {
+	initOnce.Do(setup)
+	pm := atomic.LoadUint64(&yieldPermille)
+	if pm == 0 {
+		return
+	}
+	c := atomic.AddUint64(&yieldCount, 1)
+	h := fnv.New64a()
+	io.WriteString(h, point)
+	x := h.Sum64() ^ (atomic.LoadUint64(&yieldSeed) * 0x9e3779b97f4a7c15) ^ (c * 0xbf58476d1ce4e5b9)
+	x ^= x >> 31
+	x *= 0x94d049bb133111eb
+	x ^= x >> 29
+	if x%1000 >= pm {
+		return
+	}
+	switch (x / 1000) % 4 {
+	case 0, 1:
+		runtime.Gosched()
+	case 2:
+		time.Sleep(time.Duration((x/4000)%200) * time.Microsecond)
+	default:
+		time.Sleep(time.Duration((x/4000)%2000) * time.Microsecond)
+	}
+}
+
+// ScaleDelayMs scales a computed back-off delay (the unscaled value is what callers log).
+func ScaleDelayMs(ms uint64) uint64 {
+	initOnce.Do(setup)
+	f, _ := scale.Load().(float64)
+	if f == 0 || f == 1 {
+		return ms
+	}
+	return uint64(float64(ms) * f)
+}
+
+// Crash kills the process with SIGKILL at the n-th hit of the configured point
+// (VERIF_CRASH=<point>:<n>, optionally only in processes whose arguments
+// contain VERIF_CRASH_CMD) and logs every reached point to VERIF_CRASH_LOG.
+func Crash(point string) {
+	initOnce.Do(setup)
+	if crashLog == nil && crashPoint == "" {
+		return
+	}
+	v, _ := crashHits.LoadOrStore(point, new(int64))
+	n := atomic.AddInt64(v.(*int64), 1)
+	if crashLog != nil {
+		arg := ""
+		if len(os.Args) > 1 {
+			arg = os.Args[1]
+		}
+		fmt.Fprintf(crashLog, "%d %s %s %d\n", os.Getpid(), arg, point, n)
+	}
+	if crashPoint != "" && crashPoint == point && n == crashN {
+		if crashLog != nil {
+			fmt.Fprintf(crashLog, "%d KILLED %s %d\n", os.Getpid(), point, n)
+		}
+		syscall.Kill(os.Getpid(), syscall.SIGKILL)
+		time.Sleep(time.Hour)
+	}
+}
+
+var objPathRE = regexp.MustCompile(`/lfs/objects/[0-9a-f]{2}/[0-9a-f]{2}/([0-9a-f]{64})$`)
+
+// RenameCheck is an invariant at the rename-into-place sites: when dst is a
+// final object path, src must hash to the object's name. A mismatch is only
+// recorded (event "rename.mismatch"); behaviour is unchanged.
+func RenameCheck(src, dst string) {
+	initOnce.Do(setup)
+	sinkMu.Lock()
+	active := sink != nil || trace != nil
+	sinkMu.Unlock()
+	if !active {
+		return
+	}
+	m := objPathRE.FindStringSubmatch(filepath.ToSlash(dst))
+	if m == nil {
+		return
+	}
+	f, err := os.Open(src)
+	if err != nil {
+		return
+	}
+	defer f.Close()
+	h := sha256.New()
+	io.Copy(h, f)
+	got := hex.EncodeToString(h.Sum(nil))
+	if got != m[1] {
+		Event("rename.mismatch", m[1], 1)
+	} else {
+		Event("rename.ok", m[1], 0)
+	}
+}
+
+type burstReader struct {
+	r     io.Reader
+	point string
+}
+
+func (b *burstReader) Read(p []byte) (int, error) {
+	n, err := b.r.Read(p)
+	Crash(b.point)
+	return n, err
+}
+
+// BurstReader wraps r so that every read burst of a copy is a crash point. It
+// returns r itself unless crash injection or crash logging is configured, so
+// io.Copy fast paths are untouched in ordinary runs.
+func BurstReader(r io.Reader, point string) io.Reader {
+	initOnce.Do(setup)
+	if crashLog == nil && crashPoint == "" {
+		return r
+	}
+	return &burstReader{r, point}
+}
